@@ -295,8 +295,13 @@ def gate_specs(draw, maxq=4, mods=("dag", "c", "pow"), max_mods=2, custom=True,
                names=None, int_powers=(2, 3, -1, -2)):
     cands = [n for n in (names or NAMES) if TABLE[n][0] <= maxq]
     if custom and draw(st.integers(0, 5)) == 0:
-        k = draw(st.integers(1, min(3, maxq)))
-        spec = {"g": "custom", "k": k, "mseed": draw(st.integers(0, 10 ** 6)), "p": []}
+        exact = [t for t in sorted(EXACT_TEMPLATES) if EXACT_TEMPLATES[t].shape[0] <= 2 ** maxq]
+        if draw(st.integers(0, 2)) == 0 and exact:
+            # user-defined gates with exact entries: Hermitian ones, complex-symmetric non-Hermitian ones (diag(1, i), sqrt X, iSWAP)
+            spec = {"g": "cexact", "t": draw(st.sampled_from(exact)), "p": []}
+        else:
+            k = draw(st.integers(1, min(3, maxq)))
+            spec = {"g": "custom", "k": k, "mseed": draw(st.integers(0, 10 ** 6)), "p": []}
     else:
         nm = draw(st.sampled_from(cands))
         spec = {"g": nm, "p": [draw(angles()) for _ in range(TABLE[nm][1])]}
@@ -356,8 +361,10 @@ def circuit_classes(spec):
             out.add("arity4")
         if o.get("mods"):
             out.add("wrapped")
-        if o["g"] in ("custom", "customsym"):
+        if o["g"] in ("custom", "customsym", "cexact"):
             out.add("custom")
+        if o["g"] == "cexact":
+            out.add("custom_exact_entries")
     if len(used) < n:
         out.add("idle")
     return out
